@@ -449,27 +449,48 @@ def r5_2(ctx):
     ctx.rule("R5.2", "spans move with the text: in pad/pad_left the offset added to every span equals the number of characters inserted before it; in append(Text)/append_text/join the shift is the length of the text BEFORE the append (read before _length is updated); append(str)/append_tokens place the new span at the old end")
     m = ctx.repo.mod(TEXT_MOD)
     n = 0
+    from ..astutil import inline as _inl52, single_defs as _sdf52
     for name in ("pad", "pad_left"):
         f = m.fn(f"Text.{name}")
         cnt = f.params[1]
-        # (comprehension, name of the shift amount inside it): in the method itself, or in a same-class helper called as
-        # self.<helper>(count) - then the amount is the helper's parameter that receives `count`
-        comps = [(x, cnt) for x in walk_local(f.node) if isinstance(x, ast.ListComp) and isinstance(x.elt, ast.Call) and norm(x.elt.func) in ("_Span", "Span")]
+        sd52 = _sdf52(f.node)
+        # delegation: pad may be pad_left + pad_right with the same count (pad_left is judged on its own)
+        deleg = [c0 for c0 in walk_local(f.node) if isinstance(c0, ast.Call) and norm(c0.func) == "self.pad_left" and c0.args and norm(c0.args[0]) == cnt]
+        if name == "pad" and deleg:
+            n += 1
+            ctx.ok(f.where, "pad delegates the left padding (and the span shift) to pad_left with the same count", f.fq)
+            continue
+        # every Span built from the fields of an old span (comprehension or loop over self._spans, here or in a same-class helper
+        # that receives `count`) is (start + amount, end + amount, style)
+        sites = []   # (Span call, (start, end, style) names, amount name, owner function)
+        owners = [(f, cnt)]
         for c0 in walk_local(f.node):
             if isinstance(c0, ast.Call) and isinstance(c0.func, ast.Attribute) and isinstance(c0.func.value, ast.Name) and c0.func.value.id == "self" and f.cls is not None:
                 h = f.cls.method(c0.func.attr)
                 if h is not None and h is not f and len(c0.args) == 1 and norm(c0.args[0]) == cnt and len(h.params) == 2:
-                    for x in walk_local(h.node):
-                        if isinstance(x, ast.ListComp) and isinstance(x.elt, ast.Call) and norm(x.elt.func) in ("_Span", "Span") and isinstance(m.parent_of.get(x), ast.Assign) and norm(m.parent_of[x].targets[0]) == "self._spans[:]":
-                            comps.append((x, h.params[1]))
-        ok = bool(comps)
-        for c, amount in comps:
-            s, e = c.elt.args[0], c.elt.args[1]
-            tv = [norm(t) for t in c.generators[0].target.elts] if isinstance(c.generators[0].target, ast.Tuple) else []
-            good = len(tv) == 3 and norm(s) == f"{tv[0]} + {amount}" and norm(e) == f"{tv[1]} + {amount}" and norm(c.elt.args[2]) == tv[2] and norm(c.generators[0].iter) == "self._spans" and not c.generators[0].ifs
+                    owners.append((h, h.params[1]))
+        for q, amount in owners:
+            for x in walk_local(q.node):
+                tgt = None
+                if isinstance(x, (ast.ListComp, ast.GeneratorExp)) and len(x.generators) == 1 and norm(x.generators[0].iter) == "self._spans" and not x.generators[0].ifs:
+                    tgt, body_nodes = x.generators[0].target, [x.elt]
+                elif isinstance(x, ast.For) and norm(x.iter) == "self._spans":
+                    tgt, body_nodes = x.target, x.body
+                if tgt is None or not (isinstance(tgt, ast.Tuple) and len(tgt.elts) == 3):
+                    continue
+                tv = [norm(t) for t in tgt.elts]
+                for bn in body_nodes:
+                    for c in ast.walk(bn):
+                        if isinstance(c, ast.Call) and norm(c.func) in ("_Span", "Span") and len(c.args) == 3:
+                            sites.append((c, tv, amount, q))
+        ok = bool(sites)
+        for c, tv, amount, q in sites:
+            s_, e_ = c.args[0], c.args[1]
+            good = norm(s_) in (f"{tv[0]} + {amount}", f"{amount} + {tv[0]}") and norm(e_) in (f"{tv[1]} + {amount}", f"{amount} + {tv[1]}") and norm(c.args[2]) == tv[2]
             n += 1
             ctx.check(good, f.fq, short(c), f"{m.relpath}:{c.lineno}", f"every span shifted by `{cnt}`, the number of characters inserted on the left",
                       f"{name}: spans are not all shifted by exactly `{cnt}` (the left padding): styles slide off their characters")
+        comps = [(c, amount) for c, tv, amount, q in sites]
         # sign premise: `character * count` inserts max(count, 0) characters, so shifting by `count` is right only for count >= 0.
         # The shift must sit under a fact that excludes negative amounts (count > 0 / count >= 1 / not count <= 0), or the
         # amount must have been clamped with max(.., 0) - a bare truthiness test `if count:` lets negative counts through
@@ -486,7 +507,7 @@ def r5_2(ctx):
             facts_ = []
             for nid in g_.nodes_of(st_):
                 facts_ += [(norm(t0), v0) for t0, v0 in g_.branch_facts(nid)]
-            pos = {(f"{amount} > 0", True), (f"0 < {amount}", True), (f"{amount} >= 1", True), (f"1 <= {amount}", True), (f"{amount} <= 0", False), (f"{amount} < 1", False), (f"0 >= {amount}", False), (f"1 > {amount}", False)}
+            pos = {(f"not {amount} > 0", False), (f"{amount} > 0", True), (f"0 < {amount}", True), (f"{amount} >= 1", True), (f"1 <= {amount}", True), (f"{amount} <= 0", False), (f"{amount} < 1", False), (f"0 >= {amount}", False), (f"1 > {amount}", False)}
             clamped = any(isinstance(x, ast.Assign) and norm(x.targets[0]) == amount and norm(x.value) in (f"max({amount}, 0)", f"max(0, {amount})") for x in walk_local(hfn.node))
             if hfn is not f:
                 # the shift lives in a helper: the facts that hold at the call `self.<helper>(count)` in the method count too
@@ -508,8 +529,14 @@ def r5_2(ctx):
             ctx.check(bool(pos & set(facts_)) or clamped, hfn.fq, short(st_), f"{m.relpath}:{st_.lineno}", f"the span shift runs only for `{amount}` > 0, where it equals the number of characters inserted",
                       f"{name}: spans are shifted by `{amount}` under the guard {[t for t, v in facts_] or 'none'}, which admits negative amounts: `character * {amount}` inserts nothing then, but every span moves left by |{amount}| - styles land on the wrong characters and Text.render runs out of its style stack (RuntimeError) for spans pushed below 0")
         # the left padding inserted is `character * count`
-        src = norm(f.node)
-        okp = f"character * {cnt}" in src
+        okp = False
+        for x in walk_local(f.node):
+            if isinstance(x, ast.Assign) and norm(x.targets[0]) == "self.plain":
+                v_ = _inl52(x.value, sd52)
+                if isinstance(v_, ast.JoinedStr) and v_.values and isinstance(v_.values[0], ast.FormattedValue) and norm(v_.values[0].value) in (f"character * {cnt}", f"{cnt} * character"):
+                    okp = True
+                if isinstance(v_, ast.BinOp) and isinstance(v_.op, ast.Add) and norm(v_.left) in (f"character * {cnt}", f"{cnt} * character"):
+                    okp = True
         ctx.check(ok and okp, f.fq, "left padding", f.where, "left padding is character * count", f"{name}: left padding is not `character * {cnt}` or spans are not shifted")
     pr = m.fn("Text.pad_right")
     ctx.check("_spans" not in norm(pr.node), pr.fq, "no span change", pr.where, "pad_right leaves spans alone", "pad_right changes spans although nothing is inserted before them")
@@ -665,6 +692,12 @@ def r5_4(ctx):
                 n += 1
                 v = x.value
                 where = f"{m.relpath}:{x.lineno}"
+                if isinstance(v, ast.Name) and not _built_in_order(f, v.id):
+                    # a temporary bound once to the comprehension / copy that is stored: judge what it names
+                    from ..astutil import single_defs as _sdf54
+                    v = _sdf54(f.node).get(v.id, v)
+                if isinstance(v, ast.Call) and norm(v.func) in ("list", "tuple") and len(v.args) == 1 and isinstance(v.args[0], ast.GeneratorExp):
+                    v = ast.copy_location(ast.ListComp(elt=v.args[0].elt, generators=v.args[0].generators), v)
                 if isinstance(v, ast.ListComp) and f.fq in divide_family and isinstance(v.generators[0].iter, (ast.Name, ast.Call)):
                     continue  # the per-line rebuild from the index-sorted pair list is judged by _divide_order below
                 if isinstance(v, ast.ListComp):
@@ -676,8 +709,10 @@ def r5_4(ctx):
                     ctx.ok(where, "spans copied in order from another Text", f.fq)
                 elif isinstance(v, ast.Name) and _built_in_order(f, v.id):
                     ctx.ok(where, f"`{v.id}` is filled by appends inside one in-order loop over the old span list (order-preserving map/filter)", f.fq)
+                elif isinstance(v, ast.Call) and isinstance(v.func, ast.Name) and v.func.id in ("sorted", "reversed") or (isinstance(v, ast.Subscript) and isinstance(v.slice, ast.Slice) and v.slice.step is not None):
+                    ctx.violation(f.fq, short(x), where, f"spans replaced by `{short(v)}`: a sorted / reversed copy changes which of two overlapping styles wins")
                 else:
-                    ctx.violation(f.fq, short(x), where, f"spans replaced by `{short(v)}`, whose order relative to the old list is not evident")
+                    raise AnalysisError(f"{f.fq}: spans replaced by `{short(v)}`, whose order relative to the old list this rule cannot establish")
             if isinstance(x, ast.Call) and isinstance(x.func, ast.Attribute) and x.func.attr in ("sort", "reverse") and "_spans" in norm(x.func.value):
                 n += 1
                 where = f"{m.relpath}:{x.lineno}"
@@ -750,7 +785,7 @@ def _built_in_order(f, name: str) -> bool:
     inits = [x for x in walk_local(f.node) if isinstance(x, (ast.Assign, ast.AnnAssign)) and norm(x.targets[0] if isinstance(x, ast.Assign) else x.target) == name]
     if len(inits) != 1 or inits[0].value is None or norm(inits[0].value) != "[]":
         return False
-    loops = [x for x in walk_local(f.node) if isinstance(x, ast.For) and isinstance(x.iter, ast.Attribute) and x.iter.attr == "_spans" and isinstance(x.target, ast.Name)]
+    loops = [x for x in walk_local(f.node) if isinstance(x, ast.For) and isinstance(x.iter, ast.Attribute) and x.iter.attr == "_spans" and (isinstance(x.target, ast.Name) or (isinstance(x.target, ast.Tuple) and all(isinstance(e_, ast.Name) for e_ in x.target.elts)))]
     apps = [c for c in walk_local(f.node) if isinstance(c, ast.Call) and norm(expand_alias(c.func, aliases)) in (f"{name}.append",)]
     others = [c for c in walk_local(f.node) if isinstance(c, ast.Call) and norm(expand_alias(c.func, aliases)).startswith(f"{name}.") and c not in apps]
     if len(loops) != 1 or not apps or others:
@@ -760,14 +795,14 @@ def _built_in_order(f, name: str) -> bool:
     nested = [x for x in ast.walk(lp) if isinstance(x, (ast.For, ast.While)) and x is not lp]
     if nested or any(id(c) not in inside for c in apps):
         return False
-    var = lp.target.id
+    tvars = {lp.target.id} if isinstance(lp.target, ast.Name) else {e_.id for e_ in lp.target.elts}
     for c in apps:
         a = c.args[0] if len(c.args) == 1 else None
         if a is None:
             return False
-        if isinstance(a, ast.Name) and a.id == var:
+        if isinstance(a, ast.Name) and a.id in tvars and isinstance(lp.target, ast.Name):
             continue
-        if isinstance(a, ast.Call) and norm(expand_alias(a.func, aliases)) in ("Span", "_Span") and any(isinstance(x, ast.Name) and x.id == var for x in ast.walk(a)):
+        if isinstance(a, ast.Call) and norm(expand_alias(a.func, aliases)) in ("Span", "_Span") and any(isinstance(x, ast.Name) and x.id in tvars for x in ast.walk(a)):
             continue
         return False
     return True
